@@ -239,14 +239,8 @@ def apply(st, op):
         subs = st.descendants(tbl0, p)
         if not existing and any(B0.get((s, n), ("NoRef",))[0] != "NoRef" for s in subs):
             return st, False, trig, "a sub space already has the name (library refuses)", None
-        if existing:
-            if any((s, n) in st.defs for s in subs):
-                trig.add("D33_change_ref_break")
+        # D33_change_ref_break is repaired in /repo (d55986d): re-assignments below an overriding sub space are generated
         new.defs[(p, n)] = (mode, tg)
-        if existing:
-            t1 = new.table()
-            if any(new.first_definer(t1, s, n) != p and (s, n) not in new.defs for s in subs):
-                trig.add("D33_change_ref_break")
     elif k == "delref":
         p, n = tuple(op[1]), op[2]
         if (p, n) not in st.defs:
@@ -283,11 +277,7 @@ def apply(st, op):
     for (s2, n2), b in B1.items():
         if b[0] in ("Def", "Der") and not new.exists(tbl1, b[2]):
             trig.add("dangling_target")
-    if k == "setref" and existing and mode == "auto":
-        for s_ in subs:
-            b = B1.get((s_, n), ("NoRef",))
-            if b[0] == "Der" and not b[3] and new.first_definer(tbl1, s_, n) == p:
-                trig.add("change_ref_is_relative")
+    # change_ref_is_relative is repaired in /repo: re-assigning a base reference is generated
     if k in ("addb", "rmb", "space"):
         p = tuple(op[1])
         real = {p} | {s for s in new.bases if p in tbl1.get(s, ()) or p in tbl0.get(s, ())}
@@ -326,8 +316,7 @@ def dyn_expect(st, root):
             # such cases are generated and must follow the component-wise rule
             if b[0] == "Der" and m == "auto" and not b[3] and is_prefix(root, t):
                 trig.add("dyn_derived_nonrelative")
-            if b[0] == "Der" and m == "auto" and b[3] and not is_prefix(root, t):
-                trig.add("dyn_direct_bases")
+            # dyn_direct_bases is repaired in /repo: generated
             if e[0] == "errscope":
                 scope_err = True
             entries.append((q, n, e))
